@@ -236,3 +236,35 @@ func must(err error) {
 func ZzC17Password1() { zzC17Password(1) }
 func ZzC17Password2() { zzC17Password(2) }
 func ZzC17Password3() { zzC17Password(3) }
+
+// zzC17LongPassword: a passphrase of n bytes (longer than any block or buffer
+// size a KDF front end might use); a guess that differs from it in ONE byte,
+// at the beginning, around the 32- and 64-byte marks or at the very end, is
+// rejected: "accepts only the exact passphrase" has no length limit.
+func zzC17LongPassword(n int) {
+	prng = &zzReader{limit: -1}
+	pw := make([]byte, n)
+	for i := range pw {
+		pw[i] = byte('a' + i%26)
+	}
+	pw[n-1] = verifrt.U8("last")
+	sk, err := NewSecretKey(&pw, 16, 8, 1)
+	verifrt.Assert(err == nil && sk != nil, "c17-new-secret-key")
+	pwCopy := append([]byte{}, pw...)
+	verifrt.Assert(sk.DeriveKey(&pwCopy) == nil, "c17-own-passphrase-accepted")
+	positions := []int{0, 31, 32, 63, 64, 65, n - 1}
+	pos := positions[verifrt.Choice(len(positions), "differs-at")]
+	mask := verifrt.U8("mask")
+	verifrt.Assume(mask != 0)
+	guess := append([]byte{}, pw...)
+	guess[pos] ^= mask
+	var other SecretKey
+	must(other.Unmarshal(sk.Marshal()))
+	verifrt.Assert(other.DeriveKey(&guess) == ErrInvalidPassword, "c17-long-passphrase-one-byte-off-rejected")
+	if pos >= 64 {
+		verifrt.Reach("differs-beyond-64-bytes")
+	}
+	verifrt.Reach("c17-end")
+}
+
+func ZzC17Password70() { zzC17LongPassword(70) }
